@@ -21,6 +21,7 @@ Model / reference: Model/Registry.v, Spec/RegistrySpec.v through bin/c13_driver;
 tables (gen_c13) are written to coq/Gen/*.v and work/C13/tables.txt on every run."""
 import asyncio, collections, copy, enum, json, keyword, logging, os, random, threading, typing
 import core
+import priv
 import gen_c13
 
 NoneType = type(None)
@@ -342,7 +343,7 @@ class Pair:
             return self.results.get(t.WORKSPACE_EXECUTE_COMMAND)
         self.server.command(CMD)(cmd)
         self.tasks = [asyncio.ensure_future(run_async(self.stop, self.readers[s], self.ends[s].protocol, None,
-                                                      self.ends[s]._report_server_error)) for s in ("Server", "Client")]
+                                                      priv.error_handler(self.ends[s]))) for s in ("Server", "Client")]
 
     def reset(self):
         for d in (self.out, self.handled, self.got, self.errors):
@@ -358,9 +359,8 @@ class Pair:
             await asyncio.wait_for(asyncio.gather(*self.tasks, return_exceptions=True), 5)
         except Exception:
             for t_ in self.tasks: t_.cancel()
-        for e in self.ends.values():
-            tp = getattr(e, "_thread_pool", None)
-            if tp: tp.shutdown(wait=False)
+        tp = priv.thread_pool_slot(self.server)
+        if tp: tp.shutdown(wait=False)
 
 
 # ---------------------------------------------------------------- the property
@@ -388,7 +388,9 @@ class C13(core.Property):
                     "harness/c13.py (instance generator, in-process client-server pair, canonicalisation)",
                     "oracle, exercised not proved: lsprotocol/cattrs structure/unstructure (Section variable `structure`)",
                     "modelled not verified: collections.namedtuple(rename=True), str.isidentifier/keyword.iskeyword on ASCII, "
-                    "json.loads object_hook order, dict insertion order, attrs generic classes' __init__"]
+                    "json.loads object_hook order, dict insertion order, attrs generic classes' __init__",
+                    priv.trusted(["server.error_handler", "client.error_handler", "server.thread_pool", "protocol_module.dict_to_object"])]
+    private = ["server.error_handler", "client.error_handler", "server.thread_pool"]   # (dict_to_object has a public fall-back)
     assumptions = ["member names of generic payloads are ASCII (str.isidentifier is modelled on ASCII only)",
                    "objects on the wire have pairwise distinct member names (duplicates are modelled but the statement is silent)",
                    "ids are ints or strings; an incoming request's id is not the id of an own outstanding request (finding 21, C05)",
@@ -726,10 +728,10 @@ class C13(core.Property):
             if loop_kind == "run_async":
                 reader = asyncio.StreamReader()
                 reader.feed_data(data); reader.feed_eof()
-                await run_async(threading.Event(), reader, p, None, s._report_server_error)
+                await run_async(threading.Event(), reader, p, None, priv.error_handler(s))
                 for _ in range(3): await asyncio.sleep(0)
             else:
-                run(threading.Event(), io.BytesIO(data), p, None, s._report_server_error)
+                run(threading.Event(), io.BytesIO(data), p, None, priv.error_handler(s))
             # delivered typed payloads, in order, each judged against the converter alone on ITS frame
             seq = []
             k = 0
@@ -861,10 +863,10 @@ class C13(core.Property):
             body = json.dumps(w).encode("utf-8")
             reader.feed_data(b"Content-Length: %d\r\n\r\n" % len(body) + body)
         reader.feed_eof()
-        await run_async(threading.Event(), reader, p, None, s._report_server_error)
+        await run_async(threading.Event(), reader, p, None, priv.error_handler(s))
         for _ in range(3):
             await asyncio.sleep(0)
-        tp = getattr(s, "_thread_pool", None)
+        tp = priv.thread_pool_slot(s)
         if tp: tp.shutdown(wait=False)
         expected = self._fresh.structure(copy.deepcopy(wire), t.METHOD_TO_TYPES[m][0]).params
         if len(seen) != 1:
@@ -1076,7 +1078,7 @@ class C13(core.Property):
         reader = asyncio.StreamReader()
         reader.feed_data(b"Content-Length: %d\r\n\r\n" % len(body) + body)
         reader.feed_eof()
-        await run_async(threading.Event(), reader, p, None, s._report_server_error)
+        await run_async(threading.Event(), reader, p, None, priv.error_handler(s))
         for _ in range(3):
             await asyncio.sleep(0)
         has_id = isinstance(wire, dict) and any(k == "id" for k, _ in members(wire))
@@ -1098,9 +1100,9 @@ class C13(core.Property):
         return any("method" not in f for f in frames(written))
 
     def _d2o(self, c):
-        from pygls.protocol import _dict_to_object
+        d2o = priv.dict_to_object()          # (outside the observed call)
         try:
-            return ["ok", canon(_dict_to_object(copy.deepcopy(c["j"])))]
+            return ["ok", canon(d2o(copy.deepcopy(c["j"])))]
         except Exception:
             return ["raise"]
 
